@@ -204,6 +204,34 @@ def euler_vars(ctx, rng, idx):
                 if not np.all(np.abs(g_ - v_) / scale / (cond if conditioned else 1.0) <= TOL):
                     bad.append(name)
         ctx.true("vars-after-history", not bad, "vars/%s/named-variables-wrong-after-post-processing" % kind, {"wrong": bad}, cls="vars:" + kind)
+    # a UNIFORM state written the way a user writes it -- one number per variable, [u, v] for the 2D velocity -- expanded by the field
+    # constructor (as fdata_fromprim does), on this very mesh (1-, 2-, ... cell grids included): same definitions
+    r0, p0 = float(rho[0]), float(p[0])
+    V0 = [float(np.asarray(V)[0][0]), float(np.asarray(V)[1][0])] if kind == "euler2d" else float(np.asarray(V)[0])
+    try:
+        fu = ffield.fdata(model, mesh, [r0, V0 if rng.random() < 0.7 or kind != "euler2d" else np.array(V0), p0])
+        fcu = ffield.fdata(model, mesh, model.prim2cons(fu.data))
+    except (ValueError, TypeError, IndexError, AttributeError) as e:
+        ctx.true("uniform-field", False, "vars/%s/uniform-state-field-cannot-be-built" % kind, {"error": "%s: %s" % (type(e).__name__, e), "ncell": n}, cls="vars:" + kind)
+        fcu = None
+    if fcu is not None:
+        Vu = np.vstack([np.full(n, V0[0]), np.full(n, V0[1])]) if kind == "euler2d" else np.full(n, V0)
+        defs_u, cond_u = definitions(kind, gam, np.full(n, r0), Vu, np.full(n, p0), section)
+        badu = []
+        for name in names:
+            if name not in defs_u:
+                continue
+            val, scale, conditioned = defs_u[name]
+            try:
+                got = np.asarray(fcu.phydata(name), float)
+            except (IndexError, ValueError, TypeError) as e:
+                badu.append("%s (%s)" % (name, type(e).__name__))
+                continue
+            if name == "mach":
+                got, val = np.abs(got), np.abs(val)
+            if got.shape != np.shape(val) or not np.all(np.abs(got - val) / scale / (cond_u if conditioned else 1.0) <= TOL):
+                badu.append(name)
+        ctx.true("uniform-field", not badu, "vars/%s/wrong-on-a-field-built-from-one-number-per-variable" % kind, {"wrong": badu, "ncell": n, "state": [r0, V0, p0]}, cls="vars:" + kind)
     ctx.info.setdefault("names_checked", {})
     ctx.info["names_checked"][kind] = sorted(names)
     ctx.nontrivial(kind, gam, rho[:3], p[:3])
